@@ -465,38 +465,73 @@ func StackOf(dump string, id int64) string {
 
 var createdRe = regexp.MustCompile(`created by \S+ in goroutine (\d+)`)
 
-// CreatedIn returns the blocks of the goroutines that descend from goroutine
-// id: created in it, or in a goroutine created in it, and so on (as far as the
-// intermediate goroutines are still alive in the dump).
-func CreatedIn(dump string, id int64) []string {
-	type g struct {
-		id, parent int64
-		blk        string
-	}
-	var gs []g
-	for _, blk := range strings.Split(dump, "\n\n") {
+// Goroutine is one parsed block of a dump.
+type Goroutine struct {
+	ID, Parent int64
+	Parked     bool
+	Block      string
+}
+
+// ParsedDump is a goroutine dump split into its goroutines.
+type ParsedDump struct {
+	Text string
+	Time time.Time
+	Gs   []Goroutine
+	kids map[int64][]int // parent id -> indexes into Gs
+}
+
+func parseDump(text string, at time.Time) *ParsedDump {
+	pd := &ParsedDump{Text: text, Time: at, kids: map[int64][]int{}}
+	for _, blk := range strings.Split(text, "\n\n") {
 		m := goidRe.FindStringSubmatch(blk)
 		if m == nil {
 			continue
 		}
-		x := g{blk: blk, parent: -1}
-		x.id, _ = strconv.ParseInt(m[1], 10, 64)
-		if all := createdRe.FindAllStringSubmatch(blk, -1); len(all) > 0 {
-			x.parent, _ = strconv.ParseInt(all[len(all)-1][1], 10, 64)
-		}
-		gs = append(gs, x)
-	}
-	in := map[int64]bool{id: true}
-	var out []string
-	taken := map[int64]bool{}
-	for changed := true; changed; {
-		changed = false
-		for _, x := range gs {
-			if !taken[x.id] && in[x.parent] {
-				taken[x.id], in[x.id], changed = true, true, true
-				out = append(out, x.blk)
+		g := Goroutine{Block: blk, Parent: -1, Parked: Parked(blk)}
+		g.ID, _ = strconv.ParseInt(m[1], 10, 64)
+		if i := strings.LastIndex(blk, "created by "); i >= 0 {
+			if c := createdRe.FindStringSubmatch(blk[i:]); c != nil {
+				g.Parent, _ = strconv.ParseInt(c[1], 10, 64)
 			}
 		}
+		pd.kids[g.Parent] = append(pd.kids[g.Parent], len(pd.Gs))
+		pd.Gs = append(pd.Gs, g)
+	}
+	return pd
+}
+
+// Descendants returns the goroutines that descend from goroutine id: created
+// in it, or in a goroutine created in it, and so on (as far as the
+// intermediate goroutines are still alive in the dump).
+func (pd *ParsedDump) Descendants(id int64) []Goroutine {
+	var out []Goroutine
+	queue := []int64{id}
+	for len(queue) > 0 {
+		p := queue[0]
+		queue = queue[1:]
+		for _, i := range pd.kids[p] {
+			out = append(out, pd.Gs[i])
+			queue = append(queue, pd.Gs[i].ID)
+		}
+	}
+	return out
+}
+
+// Find returns the goroutine with the given id.
+func (pd *ParsedDump) Find(id int64) (Goroutine, bool) {
+	for _, g := range pd.Gs {
+		if g.ID == id {
+			return g, true
+		}
+	}
+	return Goroutine{}, false
+}
+
+// CreatedIn returns the blocks of the descendants of goroutine id in a dump text.
+func CreatedIn(dump string, id int64) []string {
+	var out []string
+	for _, g := range parseDump(dump, time.Time{}).Descendants(id) {
+		out = append(out, g.Block)
 	}
 	return out
 }
@@ -505,45 +540,53 @@ func CreatedIn(dump string, id int64) []string {
 var DumpCount, DumpMs, DumpBytes atomic.Int64
 
 var (
-	dumpMu   sync.Mutex
-	dumpText string
-	dumpTime time.Time
+	dumpMu sync.Mutex
+	dumpPD *ParsedDump
 )
 
-// SharedDump returns a dump of all goroutines taken at or after notBefore, and
-// the time it was taken. Dumps stop the world and are slow with a few thousand
-// goroutines under the race detector, so concurrent callers share one.
-func SharedDump(notBefore time.Time) (string, time.Time) {
+// SharedDump returns a parsed dump of all goroutines taken at or after
+// notBefore. Dumps stop the world and are slow with a few thousand goroutines
+// under the race detector, so concurrent callers share one.
+func SharedDump(notBefore time.Time) *ParsedDump {
 	dumpMu.Lock()
 	defer dumpMu.Unlock()
-	if dumpText == "" || dumpTime.Before(notBefore) {
-		dumpTime = time.Now()
-		dumpText = Dump()
+	if dumpPD == nil || dumpPD.Time.Before(notBefore) {
+		t := time.Now()
+		dumpPD = parseDump(Dump(), t)
 		DumpCount.Add(1)
-		DumpMs.Add(time.Since(dumpTime).Milliseconds())
-		DumpBytes.Add(int64(len(dumpText)))
+		DumpMs.Add(time.Since(t).Milliseconds())
+		DumpBytes.Add(int64(len(dumpPD.Text)))
 	}
-	return dumpText, dumpTime
+	return dumpPD
+}
+
+func allParked(gs []Goroutine) (bool, string) {
+	for _, g := range gs {
+		if !g.Parked {
+			return false, g.Block
+		}
+	}
+	return true, ""
 }
 
 // Quiet reports whether every descendant of goroutine id was parked in two
 // dumps taken at least 300 ms apart, both later than frozenSince + 1 s (the
 // caller's counters have not moved since frozenSince). It returns the second
 // dump and, when not quiet, one goroutine that was not parked.
-func Quiet(id int64, frozenSince time.Time) (bool, string, string) {
-	d1, t1 := SharedDump(frozenSince.Add(time.Second))
-	if ok, busy := AllParked(CreatedIn(d1, id)); !ok {
+func Quiet(id int64, frozenSince time.Time) (bool, *ParsedDump, string) {
+	d1 := SharedDump(frozenSince.Add(time.Second))
+	if ok, busy := allParked(d1.Descendants(id)); !ok {
 		return false, d1, busy
 	}
-	if w := time.Until(t1.Add(300 * time.Millisecond)); w > 0 {
+	if w := time.Until(d1.Time.Add(300 * time.Millisecond)); w > 0 {
 		time.Sleep(w)
 	}
-	d2, _ := SharedDump(t1.Add(300 * time.Millisecond))
-	own := CreatedIn(d2, id)
+	d2 := SharedDump(d1.Time.Add(300 * time.Millisecond))
+	own := d2.Descendants(id)
 	if len(own) == 0 {
 		return false, d2, "no goroutine of the connection found"
 	}
-	ok, busy := AllParked(own)
+	ok, busy := allParked(own)
 	return ok, d2, busy
 }
 
